@@ -307,6 +307,7 @@ class C15(Check):
         "parameter changes and compared with create(merged parameters) through a description (scales dict, method, "
         "closed, edge bytes, cosmology) and ==; plus the invalid-parameter table. non-trivial = configuration built and "
         ">= 1 modification compared; distinct = parameter hash"
+        ' Further classes: curved/custom cosmologies, numpy-typed and single-precision parameters, sub-configuration modify, parameters kept, from_dict twice from one dictionary, two-step modifications.'
     )
     assumptions = [
         "the generated and the custom binning parameter groups are exclusive when merging (setting edges drops "
